@@ -32,7 +32,6 @@ func checkC13(c *core.Ctx) {
 	c.Rule(rC13Add, "TemporalStore.Add, evaluated with a stubbed tree over limits -1..3, sizes 0..4, valid and inverted intervals and both Insert results: an inverted interval and a reached limit (max > 0 && size >= max) return an error before any insertion, count moves only with a successful Insert; IntervalTree.Insert refuses what findExact finds and counts only real insertions", 4)
 	c.Rule(rC13Wire, "store-level queries pass the instant / the range bounds to the tree search in the right order", 3)
 	c.Assume("interval-tree invariants assumed at children (inductive step): left subtree starts <= node start <= right subtree starts; child.maxEnd >= every end below it")
-	c.Assume("int64 overflow of Start-1 at math.MinInt64 is excluded")
 
 	k := newTkit(c, rC13Bounds)
 	if !k.ok {
@@ -48,6 +47,7 @@ func checkC13(c *core.Ctx) {
 	c13Coalesce(c, k)
 	c13Add(c, k)
 	c13Wiring(c)
+	c13WholeTree(c, k)
 	hashPresenceTemporal(c)
 }
 
